@@ -151,8 +151,11 @@ def parse_function(fcn_str: str) -> tuple:
     for node in ast.walk(fcn_ast):
         if isinstance(node, ast.Name) and node.id not in supported_functions:
             dep_list.append(node.id)
-        elif isinstance(node, ast.Call) and hasattr(node, "func") and hasattr(node.func, "id"):
+        elif isinstance(node, ast.Call):
+            assert isinstance(node.func, ast.Name), f"Only direct calls to supported functions are allowed (in {fcn_str})"
             assert node.func.id in supported_functions, f"Only calls to supported functions are allowed ({node.func.id} in {fcn_str} is not supported)"
+        elif isinstance(node, (ast.Attribute, ast.Lambda, ast.ListComp, ast.SetComp, ast.DictComp, ast.GeneratorExp, ast.NamedExpr)):
+            raise AssertionError(f"Attribute access, lambdas, comprehensions and assignment expressions are not allowed in functions ({fcn_str})")
     compiled_code = compile(fcn_ast, filename="<ast>", mode="eval")
 
     def fcn(**deps):
